@@ -995,5 +995,26 @@ example : orient ((0 : ℤ), (0 : ℤ)) (0, 2) (2, 0) < 0 ∧ orient ((0 : ℤ),
     ¬ inCircleDet ((0 : ℤ), (2 : ℤ)) (0, 0) (-3, 1) (1, 1) < 0 := by decide
 end TwoCircle
 
+/-! ### the witness of the known finding C20-float-incircle-tight-cluster is in general position
+
+Input (insertion order): (352,320), (432,−480), (−880,288), (0,0), (3,1)·2⁻⁴⁶, (1,4)·2⁻⁴⁶, (864,−32); below on the common
+scale 2⁴⁶ (the predicates are homogeneous: `orient_smul`, `inCircleDet_smul`).  No three points are collinear and no four
+cocircular, by the exact predicates — so the non-Delaunay, overlapping output of the float64 implementation on this input
+(oracles `c20.holds.delaunay_tight_cluster_witness`, `c20.holds.no_overlap_tight_cluster_witness`) is not an artefact of
+degeneracy. -/
+
+def tightWitness : Fin 7 → Pt ℤ := fun i =>
+  [((352 : ℤ) * 2 ^ 46, (320 : ℤ) * 2 ^ 46), (432 * 2 ^ 46, -480 * 2 ^ 46), (-880 * 2 ^ 46, 288 * 2 ^ 46),
+   (0, 0), (3, 1), (1, 4), (864 * 2 ^ 46, -32 * 2 ^ 46)].getD i.val (0, 0)
+
+example : ∀ i j k : Fin 7, i < j → j < k → orient (tightWitness i) (tightWitness j) (tightWitness k) ≠ 0 := by
+  decide +kernel
+
+example : ∀ i j k l : Fin 7, i < j → j < k → k < l →
+    inCircleDet (tightWitness i) (tightWitness j) (tightWitness k) (tightWitness l) ≠ 0 := by
+  decide +kernel
+
+example : ∀ i j : Fin 7, i < j → tightWitness i ≠ tightWitness j := by decide +kernel
+
 end C20
 end PolyVerif
